@@ -343,6 +343,7 @@ type harnessReport struct {
 	Steps        int64             `json:"ssa_instructions_executed"`
 	Cover        map[string]int64  `json:"cover"`
 	Unencodable  map[string]int64  `json:"unencodable,omitempty"`
+	UnknownAsserts map[string]int64 `json:"assertions_without_verdict,omitempty"`
 	BoundExceeded map[string]int64 `json:"bound_exceeded,omitempty"`
 	Truncated    bool              `json:"truncated,omitempty"`
 	Validated    int               `json:"native_replays_matching"`
@@ -512,7 +513,7 @@ func cmdCheck(args []string) {
 			SolverWallS: ex.SolverWall.Seconds(), LongestMs: float64(ex.SolverLongest.Microseconds()) / 1000,
 			Asserts: ex.Stats.Asserts, AssertsConcrete: ex.Stats.ConcreteAsserts, AssertsProved: ex.Stats.AssertProved, AssertsUnknown: ex.Stats.AssertUnknown,
 			Steps: ex.Stats.Steps, Cover: ex.Covers, Unencodable: ex.Unenc, BoundExceeded: ex.Bounds, Truncated: ex.Truncated,
-			funcs: ex.FuncsSeen, StubSkipped: ex.StubDiverged,
+			funcs: ex.FuncsSeen, StubSkipped: ex.StubDiverged, UnknownAsserts: ex.UnknownAsserts,
 		}
 		if len(ex.Unenc) > 0 || len(ex.Bounds) > 0 || ex.Truncated || ex.Stats.AssertUnknown > 0 || ex.Stats.BranchUnknown > 0 || ex.Stats.ConfirmBad > 0 {
 			incomplete = true
@@ -652,6 +653,9 @@ func cmdCheck(args []string) {
 		}
 		for m, n := range ex.Bounds {
 			fmt.Printf("  INCONCLUSIVE bound exceeded x%d: %s\n", n, m)
+		}
+		for m, n := range ex.UnknownAsserts {
+			fmt.Printf("  INCONCLUSIVE solver gave no verdict within the time limit x%d: assertion %s\n", n, m)
 		}
 		for _, m := range rep.Mismatches {
 			fmt.Printf("  ENGINE-MISMATCH %s\n", m)
